@@ -538,8 +538,41 @@ def _structural_rules(ck):
     ck.ob("C20-R7", "loops-in-the-coders", nloops >= 2, "", "", "%d loops examined; none walks backwards without a bound" % nloops, nontrivial=False)
 
 
+def _output_rule(ck):
+    """R8: the coders' output member is rebuilt for every call"""
+    prog = ck.prog
+    ck.rule("C20-R8", "C dominance (whole overwrite before element stores)",
+            "Encode() / Decode() fill their output member element by element (`m.at(i) = ..`); before the first such store the member "
+            "is overwritten as a whole (`m = container(size, fill)`, assign, or clear + resize) on every path -- a buffer that is only "
+            "ever grown keeps the tail of an earlier, longer result when a coder object is used a second time", 1)
+    n = 0
+    for f in [f_ for f_ in prog.flat_library_funcs() if os.path.basename(f_.file) in ("base64.cc", "base64.h") and f_.blocks and f_.cls]:
+        stores = {}
+        for e in f.events("assign"):
+            m_ = re.match(r"^this->(\w+)\s*(\.at\(|\[)", (e.get("lhs") or {}).get("t") or "")
+            if m_:
+                stores.setdefault(m_.group(1), []).append(e)
+        for e in f.events("call"):
+            if (e.get("callee") or "").rsplit("::", 1)[-1] in ("push_back", "emplace_back", "append") and ((e.get("recv") or {}).get("f") or "").startswith(f.cls):
+                stores.setdefault(e["recv"]["f"].rsplit("::", 1)[-1], []).append(e)
+        if not stores:
+            continue
+        dom = cfg.dominators(f)
+        for mem, sts in sorted(stores.items()):
+            whole = [e for e in f.events("call") if ((e.get("recv") or {}).get("f") or "").endswith("::" + mem) and
+                     (e.get("op") == "=" or (e.get("callee") or "").rsplit("::", 1)[-1] in ("assign", "clear", "swap"))]
+            n += 1
+            ok = bool(whole) and all(any(cfg.ev_dominates(dom, w_, s_) for w_ in whole) for s_ in sts)
+            ck.ob("C20-R8", "%s/%s-rebuilt" % (f.base.rsplit("::", 2)[-2] + "::" + f.base.rsplit("::", 1)[-1], mem), ok, sts[0].loc, f,
+                  "`%s` is overwritten as a whole before it is filled" % mem if ok else
+                  "`%s` is filled element by element (line %s) without being rebuilt first: what an earlier call left beyond the new length "
+                  "stays in the result" % (mem, sts[0].get("l")))
+    ck.require(n >= 1, "coders that fill an output member element by element: %d" % n)
+
+
 def run(ck):
     _structural_rules(ck)
+    _output_rule(ck)
     prog = ck.prog
     ck.rule("C20-R1", "H table agreement on intervals (interval interpretation of two loop-free functions)",
             "Base64Encoder::EncodeByte maps 0..63 by the RFC 4648 alphabet table; Base64Decoder::DecodeCharacter is its inverse on the "
